@@ -410,6 +410,97 @@ func checkRegistryCase(c registryCase) (rule, sig, msg string) {
 	return "", "", ""
 }
 
+// Embedded structs: Go promotes the exported fields of an embedded struct - also of one whose type is unexported - to
+// the outer type, and encoders write them out. Static types, because reflect.StructOf cannot build these.
+type embAccount struct {
+	User     string
+	Password string
+}
+type embTagged struct {
+	User     string
+	Password string `coerce:"secure"`
+}
+type EmbExported struct {
+	User   string
+	APIKey string
+}
+type reqEmbUnexported struct {
+	embAccount
+	Target string
+}
+type reqEmbUnexportedPtr struct {
+	*embAccount
+	Target string
+}
+type reqEmbTagged struct {
+	embTagged
+	Target string
+}
+type reqEmbExported struct {
+	EmbExported
+	Target string
+}
+type reqEmbDeep struct {
+	Inner struct{ embAccount }
+	Note  string
+}
+type reqEmbHarmless struct {
+	embHarmless
+	Target string
+}
+type embHarmless struct{ User, City string }
+
+type embeddedCase struct {
+	Name   string `json:"name"`
+	InResp bool   `json:"inResp"`
+	Ptr    bool   `json:"ptr"`
+}
+
+var embeddedProtos = []struct {
+	name   string
+	value  any
+	ptr    any
+	refuse bool
+}{
+	{"unexported-embedded", reqEmbUnexported{}, &reqEmbUnexported{}, true},
+	{"unexported-embedded-pointer", reqEmbUnexportedPtr{}, &reqEmbUnexportedPtr{}, true},
+	{"tagged-embedded", reqEmbTagged{}, &reqEmbTagged{}, false},
+	{"exported-embedded", reqEmbExported{}, &reqEmbExported{}, true},
+	{"embedded-below-a-struct-field", reqEmbDeep{}, &reqEmbDeep{}, true},
+	{"harmless-embedded", reqEmbHarmless{}, &reqEmbHarmless{}, false},
+}
+
+func checkEmbeddedCase(c embeddedCase) (rule, sig, msg string) {
+	defer func() {
+		if r := recover(); r != nil {
+			rule, sig, msg = "registry-panicked", "embedded:"+c.Name, fmt.Sprintf("%+v: panic: %v", c, r)
+		}
+	}()
+	for _, e := range embeddedProtos {
+		if e.name != c.Name {
+			continue
+		}
+		proto := e.value
+		if c.Ptr {
+			proto = e.ptr
+		}
+		p := &regPlug{simplePlug: simplePlug{name: "p"}, req: SReq{}, resp: SResp{}}
+		if c.InResp {
+			p.resp = proto
+		} else {
+			p.req = proto
+		}
+		err := registry.New().Register(p)
+		switch {
+		case e.refuse && err == nil:
+			return "secret-looking-field-accepted-without-tag", "embedded:" + c.Name, fmt.Sprintf("%+v: Register accepted a type with an untagged secret-looking promoted field (%T)", c, proto)
+		case !e.refuse && err != nil:
+			return "well-tagged-type-refused", "embedded:" + c.Name, fmt.Sprintf("%+v: Register refused the plugin: %v", c, err)
+		}
+	}
+	return "", "", ""
+}
+
 func nestClass(n string) string {
 	if n == "" {
 		return "top"
@@ -497,6 +588,22 @@ func enumC17(env *EnumEnv, it *WorkItem) *EnumResult {
 			}
 		}
 	}
+	g.phase = "registry: embedded structs"
+	for _, e := range embeddedProtos {
+		for _, inResp := range []bool{false, true} {
+			for _, ptr := range []bool{false, true} {
+				idx++
+				if idx%it.NShards != it.Shard || g.over() {
+					continue
+				}
+				c := embeddedCase{Name: e.name, InResp: inResp, Ptr: ptr}
+				res.Evaluations++
+				res.Distinct++
+				r, s, m := checkEmbeddedCase(c)
+				report(r, s, m, map[string]any{"embedded": c})
+			}
+		}
+	}
 	res.Notes = append(res.Notes, fmt.Sprintf("%d type shapes up to %d constructors below the top struct; Go arrays are excluded as documented", len(shapes), depth-1))
 	return res
 }
@@ -507,7 +614,7 @@ func init() {
 		Level: "exploration",
 		Rule: "request/response TYPES are built at run time with reflect.StructOf/PointerTo/SliceOf/MapOf from the grammar T ::= string | struct{X T; Y T secure; Z string; W T ignore} | *T | []T | map[string]T | any(T) (an ignore-tagged container is walked like an untagged one): ALL shapes up to 3 (4) constructors deep below a top struct field, a unique canary string in every leaf " +
 			"(secret iff some enclosing field is tagged), handed over by value and by pointer, placed as sequence-action request, check-action request, attempt response of a sequence action and of a check action; surfaces: clone.Plan/Block/Checks/Sequence/Action (keep-state, default secrets), default clone.Plan, reports.Render (every file of the returned file system); " +
-			"oracle: byte search for every secret canary (must be absent) and every plain canary (must be present in clones), canonical dump of the original plan before/after; registry: secret-looking and harmless field names x {no tag, secure, ignore} x nesting through structs and pointers up to depth 3 x request/response x value/pointer/zero prototype, each followed on the same registry by the same plugin again, by another plugin containing the same struct type and (fresh registry) preceded by an unrelated refusal; " +
+			"oracle: byte search for every secret canary (must be absent) and every plain canary (must be present in clones), canonical dump of the original plan before/after; registry: secret-looking and harmless field names x {no tag, secure, ignore} x nesting through structs and pointers up to depth 3 x request/response x value/pointer/zero prototype, each followed on the same registry by the same plugin again, by another plugin containing the same struct type and (fresh registry) preceded by an unrelated refusal; secret-looking fields promoted from embedded structs (unexported type, pointer, exported type, below a struct field, tagged, harmless); " +
 			"distinct_nontrivial = cases other than the flat string type",
 		Assumptions: []string{"Go arrays are excluded as documented", "the registry is only required to look through structs and pointers to structs"},
 		Items:       func(tier string) []WorkItem { return shardItems("C17", 16) },
@@ -516,6 +623,7 @@ func init() {
 			var in struct {
 				Secret   *secretCase   `json:"secret"`
 				Registry *registryCase `json:"registry"`
+				Embedded *embeddedCase `json:"embedded"`
 			}
 			if err := jsonUnmarshal(raw, &in); err != nil {
 				return []*Violation{{Property: "C17", Rule: "bad-input", Msg: err.Error()}}
@@ -526,6 +634,8 @@ func init() {
 				r, s, m = checkSecretCase(*in.Secret)
 			case in.Registry != nil:
 				r, s, m = checkRegistryCase(*in.Registry)
+			case in.Embedded != nil:
+				r, s, m = checkEmbeddedCase(*in.Embedded)
 			}
 			if r != "" {
 				return []*Violation{{Property: "C17", Rule: r, Signature: s, Msg: m}}
